@@ -2,6 +2,8 @@ package values
 
 import (
 	"sync"
+
+	"github.com/osteele/liquid/verifhook"
 )
 
 type drop interface {
@@ -25,6 +27,7 @@ type dropWrapper struct {
 }
 
 func (w *dropWrapper) Resolve() Value {
+	verifhook.Yield(verifhook.SiteDropResolve)
 	w.Do(func() { w.v = ValueOf(w.d.ToLiquid()) })
 	return w.v
 }
